@@ -519,6 +519,16 @@ def mon_app(pid, run):
         if pid in ("C08", "C19") and kind == "a.prepare" and c != "ok":
             hits.append((i, "the node's own PrepareProposal handler %s with %s of this block's transactions in its mempool (no engine fault scripted)" % (
                 "never returned (node stuck building its proposal)" if c == "hang" else "failed: " + impl[3:120], a.get("admitted"))))
+        if pid in ("C08", "C19") and kind == "a.walk":
+            vs = _lst(a.get("verdicts", "-"))
+            m = re.search(r"sel=(\S+)", c)
+            nsel = len(_lst(m.group(1))) if m else 0
+            if c == "hang":
+                hits.append((i, "the PrepareProposal handler never returned on a mempool of %d entries (verdicts %s)" % (len(vs), ",".join(vs)[:80])))
+            elif c.startswith("ok") and nsel > 15:
+                hits.append((i, "the PrepareProposal handler selected %d mempool transactions: with the block message the proposal exceeds the 16 every validator accepts" % nsel))
+            elif not c.startswith("ok") and "e" not in vs:
+                hits.append((i, "the PrepareProposal handler failed on a mempool whose removals all succeed: %s" % impl[:120]))
         if pid == "C07" and kind == "a.det" and a.get("same") == "0":
             hits.append((i, "same block, same state, different result: %s" % a.get("detail")))
         if pid == "C13" and kind == "a.export" and a.get("same") == "0" and re.match(r"(state-differs:lock:|initial-validator-set-differs|imported-chain-halts)", a.get("detail", "")):
